@@ -69,9 +69,11 @@ CHECKS = {
         "and the cell-number list are concrete and small (every comparison of the search forks: 2000-3000 paths per case). On every path that "
         "returns a mesh z3 decides (linear real arithmetic): cell count in the permitted list, all widths > 0, the mesh covers the survey domain "
         "plus the wavelength-based buffer capped by max_buffer (both buffer definitions), neighbouring widths within the larger stretching "
-        "factor (to rounding of alpha**k), centre on a node / cell centre as requested. vector, seasurface, realistic stretching pairs and "
-        "cell-number lists, estimate_gridding_opts, construct_mesh routing and the completeness of the search (error only if no mesh exists) "
-        "are outside the claim.",
+        "factor (to rounding of alpha**k), centre on a node / cell centre as requested, nodes of a three-node vector inside the domain are "
+        "mesh nodes. Also: _seasurface on the paths that add no cells (sea surface is a node, to the code's own tolerance, or the warning "
+        "is issued) and good_mg_cell_nr against its specification in several call orders (concrete). _seasurface paths that add cells "
+        "(brentq), realistic stretching pairs and cell-number lists, estimate_gridding_opts, construct_mesh routing and the completeness "
+        "of the search (error only if no mesh exists) are outside the claim.",
    note=NOTE_COMMON+" Bounds: stretching pairs with <= 4 candidates (1.0..1.004), cell numbers subsets of {4,6,8}; the survey domain contains the centre; exact reals for the code's comparisons.",
    technique="symbolic execution of the real gridding search with forking comparisons (decision-prefix exploration) over symbolic reals; SMT validity (LRA) of the postconditions per returned path; replay on the real function with inputs reconstructed from the model",
    ref="DESIGN.md §6 C16"),
